@@ -1,75 +1,36 @@
-(* entry points for the OCaml driver: only bytes, numbers, booleans, lists and pairs cross the boundary *)
-Require Import AS.Base.Prelude AS.Base.Hex AS.Base.Dec AS.Base.Exchange AS.Gen.Extracted AS.Model.Remotes AS.Model.Api AS.Model.ScheduleParser AS.Model.Lifecycle.
+(* Entry points of the extracted model: the whole request/reply interpretation lives here, in Coq.
+   A request is a function name and a list of generic arguments; the reply is the canonical text
+   (bytes) the harness compares with the implementation's view.  Definitions only. *)
+Require Import AS.Base.Prelude AS.Base.Hex AS.Base.Dec AS.Base.Crc AS.Base.Exchange AS.Gen.Extracted
+  AS.Model.DeviceTools AS.Model.ScheduleTools AS.Model.Remotes AS.Model.Api AS.Model.ScheduleParser
+  AS.Model.Bridge AS.Model.Lifecycle AS.Spec.Sign.
+Local Open Scope string_scope.
+Local Open Scope list_scope.
+
+Inductive arg := AB (b : bytes) | AZ (z : Z) | AL (l : list arg).
+
+Definition gb (a : arg) : bytes := match a with AB b => b | _ => [] end.
+Definition gz (a : arg) : Z := match a with AZ z => z | _ => 0%Z end.
+Definition gn (a : arg) : N := Z.to_N (gz a).
+Definition gnat (a : arg) : nat := Z.to_nat (gz a).
+Definition gbool (a : arg) : bool := negb (Z.eqb (gz a) 0).
+Definition gl (a : arg) : list arg := match a with AL l => l | _ => [] end.
+Definition glb (a : arg) : list bytes := map gb (gl a).
+
 Definition str_of (b : bytes) : string := string_of_list_ascii (map ascii_of_N b).
-Definition opt_bool (n : N) : option bool := match n with 0%N => None | 1%N => Some false | _ => Some true end.
-Definition opt_str (b : bytes) : option string := match b with [] => None | _ => Some (str_of b) end.
+Definition is_fn (f : bytes) (s : string) : bool := if bytes_eq_dec f (s2l s) then true else false.
+Definition raised : bytes := s2l "raised".
+Definition show_res (r : result bytes) : bytes := match r with Ok b => s2l "ok " ++ b | Exc _ => raised end.
 
-Definition entry_breeze (legacy : bool) (devid key : bytes) (now : N) (rid : bytes) (onoff : Z)
-    (waves : list (bytes * (bytes * bytes))) (state : N) (mode : bytes) (target : Z) (fan : bytes)
-    (swing : N) (update : bool) (replies : list bytes) : bytes :=
-  let r := make_remote {| ir_id := rid; ir_onoff := onoff;
-                          ir_waves := map (fun '(k, (p, h)) => {| w_key := k; w_para := p; w_hex := h |}) waves |} in
-  show_exchange (Exchange.run (control_breeze_device legacy {| device_id := devid; device_key := key |} now r
-                        (opt_bool state) (opt_str mode) target (opt_str fan) (opt_bool swing) update) replies).
+(* ---- C04 ---- *)
+Definition e_sign (p : bytes) : bytes := show_res (sign_packet_with_crc_key p).
+Definition e_sign_spec (p : bytes) : bytes :=
+  match unhexlify p with Some bs => s2l "ok " ++ p ++ hexlify (sig bs) | None => raised end.
+Definition e_crc (init : N) (bs : bytes) : bytes := str_N (crc_hqx bs init).
 
-Definition entry_caps (rid : bytes) (onoff : Z) (waves : list (bytes * (bytes * bytes))) : bytes :=
-  let r := make_remote {| ir_id := rid; ir_onoff := onoff;
-                          ir_waves := map (fun '(k, (p, h)) => {| w_key := k; w_para := p; w_hex := h |}) waves |} in
-  concat (map (fun m => s2l m ++ [44%N]) (r_supported r)) ++ [124%N] ++ Dec.str_Z (r_min r) ++ [124%N] ++ Dec.str_Z (r_max r)
-  ++ [124%N] ++ s2l (if r_toggle r then "1" else "0") ++ [124%N] ++ s2l (if r_sep r then "1" else "0").
-
-(* generic operation entry: op selects the method; unused arguments are ignored *)
-Definition entry_op (lg : bool) (op : N) (devid key : bytes) (now : N) (a b : bytes) (z1 z2 : Z)
-    (days : list N) (replies : list bytes) : bytes :=
-  let c := {| device_id := devid; device_key := key |} in
-  let m : M bytes :=
-    match op with
-    | 1 => control_device_op lg c now a z1
-    | 2 => set_auto_shutdown_op lg c now z1
-    | 3 => set_device_name_op lg c now a
-    | 4 => get_schedules_op lg c now
-    | 5 => delete_schedule_op lg c now a
-    | 6 => create_schedule_op lg c now z2 a b (map N.to_nat days)
-    | 7 => stop_op lg c now
-    | 8 => set_position_op lg c now (Z.to_N z1)
-    | 9 => get_state2_op lg c now
-    | _ => type1_op lg c now Extracted.T_GET_STATE_PACKET_TYPE1 (Ok [])
-    end%N in
-  show_exchange_frames (Exchange.run m replies).
-
-Definition entry_schedules (lu ln : bool) (zdefault : Z) (trans : list (Z * Z)) (now : Z) (message : bytes) : bytes :=
-  show_schedules (get_schedules lu ln {| z_default := zdefault; z_trans := trans |} now message).
-
-(* bridge lifecycle: actions coded as (kind, port): 0 start, 1 stop, 2 occupy, 3 release, 4 send;
-   after every action: running flag, which configured ports the bridge holds, and the observation *)
-Definition entry_bridge (legacy : bool) (ports : list N) (acts : list (N * N)) : bytes :=
-  let ps := map N.to_nat ports in
-  let step_show (acc : bstate * bytes) (a : N * N) :=
-    let '(s, out) := acc in
-    let act := match fst a with 0%N => AStart | 1%N => AStop | 2%N => AOccupy (N.to_nat (snd a))
-               | 3%N => ARelease (N.to_nat (snd a)) | _ => ASend (N.to_nat (snd a)) end in
-    let '(s', o) := step legacy ps s act in
-    (s', out ++ s2l (if running s' then "R" else "r")
-             ++ concat (map (fun p => s2l (match os s' p with Bridge => "B" | Foreign => "F" | Free => "-" end)) ps)
-             ++ s2l (match o with ONone => "." | OStarted => "s" | ORaised => "!" | ODelivered => "d" | ODropped => "x" end)
-             ++ [124%N]) in
-  snd (fold_left step_show acts (init, [])).
-
-(* TCP client lifecycle: (kind, flag): 0 connect(listening), 1 disconnect, 2 operation(raises),
-   3 with(listening, body ok), 4 with(listening, body raises) *)
-Definition entry_client (acts : list (N * N)) : bytes :=
-  let show (acc : cstate * bytes) (a : N * N) :=
-    let '(s, out) := acc in
-    let f := negb (N.eqb (snd a) 0) in
-    let act := match fst a with 0%N => CConnect f | 1%N => CDisconnect | 2%N => COperation f
-               | 3%N => CWith f false | _ => CWith f true end in
-    let '(s', o) := cstep s act in
-    (s', out ++ s2l (if connected s' then "C" else "c") ++ Dec.str_N (N.of_nat (dev_open s')) ++ [44%N]
-             ++ Dec.str_N (N.of_nat (dev_eofs s')) ++ s2l (match o with CDone => "." | CRaised => "!" end) ++ [124%N]) in
-  snd (fold_left show acts (cinit, [])).
-
-(* Spec checker of C14 on an implementation result [out] ("!" stands for "raised"):
-   canonical HH:MM arguments must yield fmt_hmmss (((e - s) mod 1440) * 60); anything else must raise *)
+(* ---- C14 ---- *)
+Definition e_duration (a b : bytes) : bytes := show_res (calc_duration a b).
+(* Spec: canonical HH:MM arguments must yield H:MM:SS of ((e - s) mod 1440) minutes; other spellings unspecified *)
 Definition canon_minutes (s : bytes) : option N :=
   match s with
   | [a; b; 58%N; c; d] =>
@@ -79,8 +40,22 @@ Definition canon_minutes (s : bytes) : option N :=
       else None
   | _ => None
   end.
-Definition check_duration (st en out : bytes) : bool :=
+Definition e_duration_spec (st en : bytes) : bytes :=
   match canon_minutes st, canon_minutes en with
-  | Some s, Some e => if bytes_eq_dec out (fmt_hmmss (((e + 1440 - s) mod 1440) * 60)%N) then true else false
-  | _, _ => true      (* non-canonical spellings are outside the property's domain *)
+  | Some s, Some e => s2l "ok " ++ fmt_hmmss (((e + 1440 - s) mod 1440) * 60)%N
+  | _, _ => s2l "-"
+  end.
+
+Definition dispatch (f : bytes) (a : list arg) : option bytes :=
+  match a with
+  | [x] =>
+      if is_fn f "sign" then Some (e_sign (gb x))
+      else if is_fn f "sign_spec" then Some (e_sign_spec (gb x))
+      else None
+  | [x; y] =>
+      if is_fn f "crc" then Some (e_crc (gn x) (gb y))
+      else if is_fn f "duration" then Some (e_duration (gb x) (gb y))
+      else if is_fn f "duration_spec" then Some (e_duration_spec (gb x) (gb y))
+      else None
+  | _ => None
   end.
